@@ -61,6 +61,12 @@ impl Z80 {
 }
 
 impl Z80 {
+    /// Drops the pending opcode prefix (emulation step may end between a chained
+    /// prefix and the opcode), so the next fetched byte starts a new instruction
+    pub fn drop_pending_prefix(&mut self) {
+        self.active_prefix = Prefix::None;
+    }
+
     /// Reads byte from memory and increments PC
     #[inline]
     pub(crate) fn fetch_byte(&mut self, bus: &mut impl Z80Bus, clk: usize) -> u8 {
